@@ -55,6 +55,10 @@ pub enum Site {
     /// hands out an id that is still open (or was closed: `close_before`) for another statement
     /// with other parameter and column lists; every reply is checked.  `Case::cols` is unused.
     PrepareSeq { replies: Vec<SeqReply> },
+    /// one reply made of several resultsets whose column lists are prefixes (of the given lengths)
+    /// of `Case::cols`, handed to the library as slices of one allocation (a shim that keeps
+    /// `all: Vec<Column>` and answers with `&all[..k]`)
+    PrefixChain { lens: Vec<usize>, bin: bool },
 }
 
 #[derive(Clone, Debug, Serialize, Deserialize)]
@@ -147,7 +151,7 @@ impl Prop for C09 {
         "C09"
     }
     fn rule(&self) -> String {
-        "cases = a list of 0-1023 column descriptors (table/column names of 0 to 70000 bytes biased to 249-256 and 65534-65537, non-ASCII UTF-8, plus enumerated ~16 MiB names that make one definition as large as, or larger than, a wire packet; every ColumnType variant; flag words from all 16 bits) used as a text resultset header, a binary resultset header, or a PREPARE reply (arbitrary u32 statement id, independent parameter and column lists); one case in six is a sequence of 2-6 PREPAREs whose replies take their ids from a pool of three, so that an id that is still open (possibly with pending long data or after an execution) or was just closed is handed out again with other parameter / column lists, and every reply is checked. Oracle: decoded count and per column table, name, type, flags in order equal the declared ones; PREPARE_OK id / num_params / num_columns equal; mysql_common's Column parser agrees. Non-trivial = > 250 columns, or a name > 250 bytes, or flags with >= 3 bits.".into()
+        "cases = a list of 0-1023 column descriptors (table/column names of 0 to 70000 bytes biased to 249-256 and 65534-65537, non-ASCII UTF-8, plus enumerated ~16 MiB names that make one definition as large as, or larger than, a wire packet; every ColumnType variant; flag words from all 16 bits) used as a text resultset header, a binary resultset header, or a PREPARE reply (arbitrary u32 statement id, independent parameter and column lists); one case in eight is one reply of 2-4 resultsets whose column lists are prefixes of one list and reach the library as slices of one allocation; one case in six is a sequence of 2-6 PREPAREs whose replies take their ids from a pool of three, so that an id that is still open (possibly with pending long data or after an execution) or was just closed is handed out again with other parameter / column lists, and every reply is checked. Oracle: decoded count and per column table, name, type, flags in order equal the declared ones; PREPARE_OK id / num_params / num_columns equal; mysql_common's Column parser agrees. Non-trivial = > 250 columns, or a name > 250 bytes, or flags with >= 3 bits.".into()
     }
     fn cases(&self, tier: Tier) -> u64 {
         tier.pick(60000, 600000)
@@ -174,6 +178,13 @@ impl Prop for C09 {
                 .map(|_| SeqReply { id: if g.chance(2, 3) { pool[0] } else { *g.pick(&pool) }, params: small(g), cols: small(g), close_before: g.chance(1, 4), long_data_after: g.chance(1, 4), exec_after: g.chance(1, 4) })
                 .collect();
             return Case { cols: vec![], site: Site::PrepareSeq { replies } };
+        }
+        if g.chance(1, 8) {
+            let n = g.usize_in(2, 8);
+            let cols: Vec<ColGen> = (0..n).map(|_| gen_colgen(g, true)).collect();
+            let k = g.usize_in(2, 4);
+            let lens = (0..k).map(|_| g.usize_in(1, n)).collect();
+            return Case { cols, site: Site::PrefixChain { lens, bin: g.coin() } };
         }
         let site = match g.below(3) {
             0 => Site::TextHeader,
@@ -222,6 +233,49 @@ impl Prop for C09 {
         let cols: Vec<ColSpec> = case.cols.iter().map(spec).collect();
         if let Site::PrepareSeq { replies } = &case.site {
             exec_seq(replies, &mut ex);
+            return ex;
+        }
+        if let Site::PrefixChain { lens, bin } = &case.site {
+            ex.class("site:chain-of-resultsets-over-prefixes-of-one-column-list");
+            ex.nontrivial = true;
+            let all: Vec<ColSpec> = case.cols.iter().map(spec).collect();
+            let n = lens.len();
+            let steps: Vec<Step> = lens
+                .iter()
+                .enumerate()
+                .map(|(i, &k)| Step::Set { cols: all[..k.min(all.len()).max(1)].to_vec(), rows: vec![], end: if i + 1 == n { SetEnd::Finish } else { SetEnd::FinishOne } })
+                .collect();
+            let prog = Program { steps };
+            let (conv, idx) = if *bin {
+                (
+                    Conversation::new(
+                        vec![Cmd::Prepare { text: Blob::text("p") }, Cmd::Execute { id: 9, params: vec![], send_types: false, flags: 0, iterations: 1 }, Cmd::Ping],
+                        vec![Action::Prepare(PrepProg::Reply { id: 9, params: vec![], cols: vec![] }), Action::Result(prog)],
+                    ),
+                    1,
+                )
+            } else {
+                (Conversation::new(vec![Cmd::Query { text: Blob::text("q") }, Cmd::Ping], vec![Action::Result(prog)]), 0)
+            };
+            let o = run_with(&conv, None, false);
+            if let RunResult::Panic(p) = &o.result {
+                ex.fail(format!("c09-panic|{}", panic_signature(p)), format!("run_on panicked: {}", o.result.brief()));
+                return ex;
+            }
+            if !o.result.is_ok() {
+                ex.fail("c09-run-result", format!("run_on returned {}", o.result.brief()));
+                return ex;
+            }
+            let kinds: Vec<ReplyKind> = conv.cmds.iter().map(|sc| sc.cmd.reply_kind()).collect();
+            let d = decode_output(&o.out, &kinds);
+            if let Some(p) = &d.problem {
+                ex.fail("c09-nonconformant", format!("client decoder rejects the output: {}", p));
+                return ex;
+            }
+            let exps = expectations(&conv);
+            if let Err(m) = check_reply(&exps[idx], &d.replies[idx], true) {
+                ex.fail("c09-metadata-differs", m.chars().take(500).collect::<String>());
+            }
             return ex;
         }
         let all: Vec<&ColGen> = match &case.site {
@@ -277,7 +331,7 @@ impl Prop for C09 {
                 cmds.push(Cmd::Ping);
                 (Conversation::new(cmds, actions), *n as usize)
             }
-            Site::PrepareSeq { .. } => unreachable!(),
+            Site::PrepareSeq { .. } | Site::PrefixChain { .. } => unreachable!(),
             Site::Prepare { id, params } => {
                 ex.class("site:prepare-reply");
                 (
